@@ -3,7 +3,7 @@ CONSTANTS
   Plain = {1}
   RefObj = {2, 3}
   MaxReg = 1
-  MaxGC = 1
+  MaxGC = 2
   Moving = TRUE
   Requeue = FALSE
   Mutant = "none"
